@@ -6,7 +6,14 @@ use crate::spaces::*;
 use serde_json::{json, Value};
 use sourcemap::{decode_slice, DecodedMap, SourceMap, SourceMapIndex, SourceMapSection};
 
-pub const HOW_NAMES: [&str; 4] = ["raw-constructor", "builder", "decoded-from-independent-writer", "raw-constructor-after-root-changes"];
+pub const HOW_NAMES: [&str; 6] = [
+    "raw-constructor",
+    "builder",
+    "decoded-from-independent-writer",
+    "raw-constructor-after-root-changes",
+    "raw-constructor-after-set-source",
+    "raw-constructor-with-stale-unwritten-fields",
+];
 
 pub fn construct(m: &RMap, how: usize) -> Option<SourceMap> {
     match how {
@@ -18,6 +25,48 @@ pub fn construct(m: &RMap, how: usize) -> Option<SourceMap> {
             sm.set_source_root(Some("previous/root"));
             sm.set_source_root(Some(""));
             sm.set_source_root(m.root.as_deref());
+            Some(sm)
+        }
+        4 => {
+            // built with placeholder names (root already in place), every source renamed afterwards
+            let mut tmp = m.clone();
+            for (i, s) in tmp.sources.iter_mut().enumerate() {
+                *s = format!("placeholder-{i}.js");
+            }
+            let mut sm = build_new(&tmp);
+            for (i, s) in m.sources.iter().enumerate() {
+                sm.set_source(i as u32, s);
+            }
+            Some(sm)
+        }
+        5 => {
+            // tokens without a source carry left-over values in the fields that are never written
+            let mut sm = build_new(m);
+            let toks: Vec<sourcemap::RawToken> = sm
+                .tokens()
+                .enumerate()
+                .map(|(k, t)| {
+                    let mut r = t.get_raw_token();
+                    if r.src_id == !0 {
+                        r.src_line = 7 + k as u32;
+                        r.src_col = 3 * k as u32 + 1;
+                    }
+                    r
+                })
+                .collect();
+            let mut sm2 = SourceMap::new(
+                sm.get_file().map(Into::into),
+                toks,
+                sm.names().map(Into::into).collect(),
+                m.sources.iter().map(|s| s.as_str().into()).collect(),
+                if m.contents.is_empty() { None } else { Some(m.contents.iter().map(|c| c.as_deref().map(Into::into)).collect()) },
+            );
+            sm2.set_source_root(m.root.as_deref());
+            sm2.set_debug_id(sm.get_debug_id());
+            for &i in &m.ignore {
+                sm2.add_to_ignore_list(i);
+            }
+            sm = sm2;
             Some(sm)
         }
         _ => match decode_slice(rv3_write(m).as_bytes()) {
@@ -218,10 +267,10 @@ pub fn run(run: &mut Run) -> Finish {
     let tier = run.ctx.tier;
     let kmax = tier.pick(4, 6);
     let nt = t_count(kmax);
-    run.par_slice("T: every sorted multiset of <= 4/6 tokens over 6 positions x 7 payloads, three constructions", 1, nt * 3, |idx, l| {
+    run.par_slice("T: every sorted multiset of <= 4/6 tokens over 6 positions x 7 payloads, four constructions (the fourth leaves stale values in the unwritten fields of sourceless tokens)", 1, nt * 4, |idx, l| {
         let k = idx & ((1 << 40) - 1);
-        let m = t_map(kmax, k / 3);
-        let (v, ran) = check_regular(&m, (k % 3) as usize);
+        let m = t_map(kmax, k / 4);
+        let (v, ran) = check_regular(&m, [0usize, 1, 2, 5][(k % 4) as usize]);
         for x in v {
             l.violation(idx, x);
         }
@@ -229,14 +278,14 @@ pub fn run(run: &mut Run) -> Finish {
             l.case(!m.tokens.is_empty(), shape_class(&m));
         }
         if l.wants_sample(idx) {
-            l.sample(idx, json!({"slice": "T", "construction": HOW_NAMES[(k % 3) as usize], "tokens": m.tokens, "document": rv3_write(&m)}));
+            l.sample(idx, json!({"slice": "T", "construction": HOW_NAMES[[0usize, 1, 2, 5][(k % 4) as usize]], "tokens": m.tokens, "document": rv3_write(&m)}));
         }
     });
     let n1 = s1_count();
-    run.par_slice("S1: source lists of length <= 3 over the string pool x root pool x contents patterns, four constructions (the fourth reaches the map through root changes)", 2, n1 * 4, |idx, l| {
+    run.par_slice("S1: source lists of length <= 3 over the string pool x root pool x contents patterns, five constructions (the fourth reaches the map through root changes, the fifth through set_source on placeholder names)", 2, n1 * 5, |idx, l| {
         let k = idx & ((1 << 40) - 1);
-        let m = s1_map(k / 4);
-        let (v, ran) = check_regular(&m, (k % 4) as usize);
+        let m = s1_map(k / 5);
+        let (v, ran) = check_regular(&m, (k % 5) as usize);
         for x in v {
             l.violation(idx, x);
         }
@@ -244,7 +293,7 @@ pub fn run(run: &mut Run) -> Finish {
             l.case(!m.sources.is_empty(), shape_class(&m) ^ h64(&(m.root.as_deref(), m.sources.iter().map(|s| s.starts_with('/') || s.starts_with("http")).collect::<Vec<_>>())));
         }
         if l.wants_sample(idx) {
-            l.sample(idx, json!({"slice": "S1", "construction": HOW_NAMES[(k % 4) as usize], "sources": m.sources, "root": m.root, "contents": m.contents}));
+            l.sample(idx, json!({"slice": "S1", "construction": HOW_NAMES[(k % 5) as usize], "sources": m.sources, "root": m.root, "contents": m.contents}));
         }
     });
     let n2 = s2_count();
